@@ -34,7 +34,7 @@ Definition is_some {A} (x : option A) : bool := match x with Some _ => true | No
 
 Definition spec_cmp (o : cmpop) (x y : aopt) : bool :=
   match o with
-  | CNe => negb (match x, y with Some p, Some q => N.eqb p q | _, _ => false end)
+  | CNe => negb (match x, y with Some p, Some q => cmp_payload CEq p q | _, _ => false end)
   | _ => match x, y with Some p, Some q => cmp_payload o p q | _, _ => false end
   end.
 
@@ -146,7 +146,7 @@ Definition abs_any (x : anyw) : aany :=
   match x with Some h => Some (h_tag h, h_val h) | None => None end.
 Definition any_eq_spec (x y : aany) : bool :=
   match x, y with
-  | Some (t, v), Some (t', v') => N.eqb t t' && has_eq t && N.eqb v v'
+  | Some (t, v), Some (t', v') => N.eqb t t' && has_eq t && peqv t v v'
   | None, None => true
   | _, _ => false
   end.
@@ -190,3 +190,15 @@ Definition agives (w : aworld) (o : aop) : option (N * aany) :=
   end.
 Definition get_spec (x : aany) (t : N) : aout :=
   match x with Some (t', v) => if N.eqb t' t then AVal v else AThrow | None => AThrow end.
+
+(* the "skip the copy when the operands already compare equal" shortcut (not what Any does):
+   kept only to state that it is NOT a copy, because operator== is coarser than identity *)
+Definition assign_copy_skip_if_equal (w : aworld) (i j : N) : ares :=
+  match a_store w i, a_store w j with
+  | Some x, Some y =>
+      match a_eq true x y with
+      | Some true => AOk AUnit w
+      | _ => a_step true w (AAssignCopy i j)
+      end
+  | _, _ => AIll
+  end.
